@@ -829,3 +829,12 @@ PI = z3.Real("pi")
 def _deg2rad(eng, node, x):
     eng.facts.add(z3.And(PI > 3, PI < 4))
     return ops.real(x) * PI / 180
+
+
+@reg("collections.defaultdict")
+def _defaultdict(eng, node, factory=None):
+    from .engine import DefaultDictNew
+    name = None
+    if isinstance(factory, ModRef) and factory.dotted.startswith("builtins."):
+        name = factory.dotted.split(".", 1)[1]
+    return DefaultDictNew(name)
